@@ -481,6 +481,9 @@ pub struct RawTree
     pub cfg: ConfigSpec,
     pub files: Vec<RawFile>,
     pub lock: LockSpec,
+    /// add `src/zz_alias.rs`, a symlink to the first source file (symlinks are never in scope)
+    #[serde(default)]
+    pub alias_link: bool,
 }
 
 pub const RAW_NAMES: &[&str] = &["a.rs", "m/b.rs", "m/n/c.rs", "d.rs", "e.rs", "f.rs"];
@@ -505,6 +508,10 @@ impl RawTree
             tree.insert(rel.clone(), Node::File(b.clone()));
             files.push((rel, b));
         }
+        if self.alias_link && !files.is_empty()
+        {
+            tree.insert("src/zz_alias.rs".to_string(), Node::Symlink("a.rs".to_string()));
+        }
         (tree, files)
     }
 }
@@ -524,10 +531,12 @@ pub fn raw_tree(structured: StructSel, max_files: usize, p: RawParams) -> BoxedS
             let rf = raw_file(&cfg, &p);
             (Just(cfg), vec(rf, 1..=max_files))
         })
-        .prop_map(|(cfg, files)| RawTree {
+        .prop_flat_map(|(cfg, files)| (Just(cfg), Just(files), prop_oneof![3 => Just(false), 1 => Just(true)]))
+        .prop_map(|(cfg, files, alias_link)| RawTree {
             cfg,
             files,
             lock: LockSpec::Absent,
+            alias_link,
         })
         .boxed()
 }
